@@ -109,6 +109,31 @@ def gen_leaf(rng):
     return q.to(fmt)
 
 
+RELABEL = {2: [[2], [1, 2], [2, 1]], 3: [[3], [1, 3]], 4: [[4], [2, 2]], 6: [[6], [2, 3], [3, 2]]}
+
+
+def relabelled(q, rng):
+    """the same matrix with the row or the column space (or both) written as another factorisation of the same size"""
+    import qutip
+    if q.type not in ("oper", "ket", "bra") or isinstance(q.dims[0][0], list):
+        if q.issuper and q.dims[0][0] == [2] and False:
+            pass
+        return None
+    d0, d1 = q.dims
+    n0, n1 = int(np.prod(d0)), int(np.prod(d1))
+    which = int(rng.integers(0, 3))
+    nd0 = RELABEL.get(n0, [d0])[int(rng.integers(0, len(RELABEL.get(n0, [d0]))))] if which in (0, 2) and n0 > 1 else d0
+    nd1 = RELABEL.get(n1, [d1])[int(rng.integers(0, len(RELABEL.get(n1, [d1]))))] if which in (1, 2) and n1 > 1 else d1
+    if len(nd0) != len(d0) and n1 == 1:
+        nd1 = [1] * len(nd0)
+    if len(nd1) != len(d1) and n0 == 1:
+        nd0 = [1] * len(nd1)
+    try:
+        return qutip.Qobj(q.full(), dims=[nd0, nd1]).to(type(q.data))
+    except Exception:      # noqa
+        return None
+
+
 class Node:
     def __init__(self, q, expr):
         self.q, self.expr = q, expr
@@ -131,7 +156,16 @@ def apply_real(op, a, b, rng):
         r = a @ b if op == "matmul" else a * b
         return r, A @ B, [a.dims[0], b.dims[1]]
     if op == "overlap":
-        return a.overlap(b), None, None
+        # pure with pure: the amplitude <a|b> of the underlying vectors (conjugated for ket.overlap(bra), as documented by the
+        # library's own test); with an operator: the Hilbert-Schmidt product tr(X+ Y), states entering as projectors
+        va = A if a.isket else (A.conj().T if a.isbra else None)
+        vb = B if b.isket else (B.conj().T if b.isbra else None)
+        if va is not None and vb is not None:
+            w = (va.conj().T @ vb)[0, 0]
+            return a.overlap(b), (np.conj(w) if (a.isket and b.isbra) else w), None
+        X = A if va is None else va @ va.conj().T
+        Y = B if vb is None else vb @ vb.conj().T
+        return a.overlap(b), np.trace(X.conj().T @ Y), None
     if op == "call":
         return a(b), None, None
     if op == "matel":
@@ -175,6 +209,12 @@ def composable(op, a, b):
         return a.dims == b.dims and (a.superrep == b.superrep or not a.issuper)
     if op in ("matmul", "mul"):
         return a.dims[1] == b.dims[0]
+    if op == "overlap":
+        if a.type not in ("ket", "bra", "oper") or b.type not in ("ket", "bra", "oper"):
+            return False
+        sa = a.dims[0] if a.isket else (a.dims[1] if a.isbra else (a.dims[0] if a.dims[0] == a.dims[1] else None))
+        sb = b.dims[0] if b.isket else (b.dims[1] if b.isbra else (b.dims[0] if b.dims[0] == b.dims[1] else None))
+        return True if (sa is not None and sa == sb) else None      # value checked only where the labels agree
     if op == "pow":
         return a.dims[0] == a.dims[1] and a.shape[0] == a.shape[1] and (a.isoper or a.issuper)
     if op == "inv":
@@ -197,8 +237,23 @@ def run_tree(rng, tier, rep):
     log = []
     for _ in range(steps):
         if rng.random() < 0.55:
-            op = str(rng.choice(["add", "sub", "matmul", "mul"]))
+            op = str(rng.choice(["add", "sub", "matmul", "mul", "overlap"]))
             a, b = pool[int(rng.integers(0, len(pool)))], pool[int(rng.integers(0, len(pool)))]
+            if rng.random() < 0.35:
+                # near miss: the same shape under other labels, in either order
+                rb = relabelled(a, rng)
+                if rb is not None:
+                    a, b = (a, rb) if rng.random() < 0.5 else (rb, a)
+                    if op in ("add", "sub"):
+                        # equality and inequality are each other's negation, on the objects and on their labels
+                        eq, ne = (a == b), (a != b)
+                        deq, dne = (a._dims == b._dims), (a._dims != b._dims)
+                        if bool(eq) == bool(ne) or bool(deq) == bool(dne):
+                            viol.append(("eq-ne", f"{a.dims} vs {b.dims}: == gives {eq} and != gives {ne} (labels: == {deq}, != {dne})", log[-3:]))
+                        if bool(deq) != (a.dims == b.dims):
+                            viol.append(("dims-eq", f"Dimensions equality of {a.dims} and {b.dims} is {deq}", log[-3:]))
+                        if bool(eq) and a.dims != b.dims:
+                            viol.append(("eq-dims", f"objects labelled {a.dims} and {b.dims} compare equal", log[-3:]))
         else:
             op = str(rng.choice(UN))
             a, b = pool[int(rng.integers(0, len(pool)))], None
